@@ -17,7 +17,7 @@ LEGEND = {
               'variant: xof 0 plain 1 fixed 2 custom, prf 1 fixed, AEAD 0 enc 1 dec 2 dec-tampered; n1/n2/n3 = key/name/AD, custom/salt, info/message lengths); absorb slot len inplace; squeeze slot len; '
               'copy dst src; pad slot (XOF/XOFA while absorbing: must act like absorbing zero bytes up to the block boundary); next slot dir adlen mlen seed (next packet on the same AEAD state); end slot; free slot; perm slot round seed; huge family pending extra seed (thorough: `pending` bytes, then ONE call of 2^32+extra bytes, against the single-call function); oneshot slot fn outlen inlen saltlen count seed (fn 0 prf_short 1 mac 2 mac+verify 3 pbkdf2 4 pbkdf2_hmac); sapi slot steps seed (seeded sequence of add/overwrite/zero/extract/extract-and-add/extract-and-overwrite/permute on a bare state over all offset+size <= 40); knob.page 1 = buffers against guard pages; knob.twin 1 = twin-secret run',
     'channel': 'sess s family keyseed carry keypaths (family = class*3+alg; keypaths bit0/bit1: sender/receiver C++ object keyed through its key constructor instead of set_key; class 0 one-shot 1 incremental 2 masked 3 siv 4 isap 5-8 the C++ classes; carry = trailing 0xFF bytes of the starting nonce); '
-               'send s mlen adlen seed rngdead (incremental families: one packet in eight uses the session's own nonce field as associated data; one block call in six is empty; a third of the chunked packets in place); deliver s which fault faultseed keep rngdead (rngdead 1 = the system entropy source fails while the packet is processed; fault 1 flip ct 2 flip tag 3 flip AD 4 truncate 5 extend 6 multi-bit 7 AD length 8 last tag bit); drop s which; '
+               'send s mlen adlen seed rngdead (incremental families: one packet in eight uses the nonce field of the session itself as associated data; one block call in six is empty; a third of the chunked packets in place); deliver s which fault faultseed keep rngdead (rngdead 1 = the system entropy source fails while the packet is processed; fault 1 flip ct 2 flip tag 3 flip AD 4 truncate 5 extend 6 multi-bit 7 AD length 8 last tag bit); drop s which; '
                'rekey s who seed (who 0 sender 1 receiver 2 both); nonce s who kind arg seed (kind 0 set_counter 1 set_nonce(len)); sync s (datagram resynchronisation); '
                'hugead family seed (thorough: one packet over 2^32+11 bytes of associated data, then one AD byte changed); storm s packet what seed keypath (single-bit flips of 0 ct||tag 1 AD 2 nonce 3 key through fresh receiver objects); close s',
     'prng': 'knob.tape kind seed; knob.flash size page erase; knob.flip seed (which tape/feed byte the influence twins flip); boot load nvfault nvarg transient permfail; fetch n transient permfail; feed n seed; '
